@@ -289,7 +289,7 @@ Lemma redeem_loop_spec lc ec app from w rl : from <> ESMA -> NoDup (map rkey rl)
     (forall d, coll_of rs' d = coll_of rs d - (pd' d - pd d)) /\
     (forall d, debt_of rs' d = debt_of rs d) /\
     map kc rs' = map kc rs /\
-    (forall r, In r rl -> exists r', find_rec rs' (ar_app r) (ar_asset r) = Some r' /\ ar_amt r' = ar_amt r - pay_of lc ec s app w r) /\
+    (forall r, In r rl -> exists r', find_rec rs' (ar_app r) (ar_asset r) = Some r' /\ ar_amt r' = ar_amt r - pay_of lc ec s app w r /\ kc r' = kc r) /\
     (forall a x, ~ In (a, x) (map rkey rl) -> find_rec rs' a x = find_rec rs a x).
 Proof.
   intros Hfe. induction rl as [|r rl IH]; intros Hnd s rs pd s' rs' pd' HF Hnn H; cbn [redeem_loop] in H.
@@ -354,8 +354,113 @@ Proof.
       destruct (ar_coll r) eqn:Cr; cbn [negb andb]; [lia|]. unfold q, pay_of. rewrite Cr. cbn [andb]. destruct (ar_asset r =? d); lia.
     + rewrite B9. apply (put_proj kc rs r1 r Fr1). unfold kc. rewrite Hk1, Hk2, Hk3. reflexivity.
     + intros x [<-|Hx].
-      * rewrite B11 by (intros Hin; apply Hny; exact Hin). rewrite <- Hk1, <- Hk2, find_put_same. exists r1. split; [reflexivity|]. unfold r1, with_amt. reflexivity.
-      * destruct (B10 x Hx) as (x' & Fx & Ax). exists x'. split; [exact Fx|]. rewrite Ax, Hpay. reflexivity.
+      * rewrite B11 by (intros Hin; apply Hny; exact Hin). rewrite <- Hk1, <- Hk2, find_put_same. exists r1. split; [reflexivity|]. split; [unfold r1, with_amt; reflexivity|].
+        unfold kc. rewrite Hk1, Hk2, Hk3. reflexivity.
+      * destruct (B10 x Hx) as (x' & Fx & Ax & Kx). exists x'. split; [exact Fx|]. split; [rewrite Ax, Hpay; reflexivity|exact Kx].
     + intros a x Hni. rewrite B11 by (intros Hin; apply Hni; right; exact Hin). apply find_put_other. unfold rkey. rewrite Hk1, Hk2.
       intros Eq. apply Hni. left. symmetry. exact Eq.
+Qed.
+
+Lemma nodup_filter_keys (P : arec -> bool) l : NoDup (map rkey l) -> NoDup (map rkey (filter P l)).
+Proof.
+  induction l as [|w l IH]; cbn [map filter]; intros H; [constructor|]. inversion H as [|? ? Hny Hnd]; subst.
+  destruct (P w); cbn [map]; [|exact (IH Hnd)]. constructor; [|exact (IH Hnd)].
+  intros Hin. apply Hny. apply in_map_iff in Hin. destruct Hin as (x & Hk & Hx). apply filter_In in Hx. rewrite <- Hk. apply in_map. tauto.
+Qed.
+Lemma wsum_nonneg {A} (f : A -> Z) l : (forall x, In x l -> 0 <= f x) -> 0 <= wsum f l.
+Proof.
+  induction l as [|y l IH]; intros H; [rewrite wsum_nil; lia|]. rewrite wsum_cons.
+  pose proof (H y (or_introl eq_refl)). assert (0 <= wsum f l) by (apply IH; intros x Hx; apply H; right; exact Hx). lia.
+Qed.
+Lemma pay_of_snap lc ec s s2 app w r : snap s2 = snap s -> pay_of lc ec s2 app w r = pay_of lc ec s app w r.
+Proof. intros Hs. unfold pay_of, rate_of. rewrite Hs. reflexivity. Qed.
+
+Record redeem_eff (lc : lcfg) (ec : ecfg) (e e' : estate) (from app denom amt : Z) (r : arec) (tw dec w : Z) : Prop := mkRE {
+  re_pos : 0 < amt;
+  re_find : find_rec (recs e) app denom = Some r;
+  re_side : ar_coll r = false;
+  re_le : amt <= ar_amt r;
+  re_tw : uint64_c (dtrunc_int (ar_worth r)) = Some tw;
+  re_dec : ec_dec ec denom = Some dec;
+  re_w : total_value amt tw dec = Ok w;
+  re_books : books_same (vs (el e)) (vs (el e'));
+  re_sup : forall x, sup (vs (el e')) x = sup (vs (el e)) x - at1 denom amt x;
+  re_bal_other : forall a d, a <> ESMA -> a <> from -> bal (vs (el e')) a d = bal (vs (el e)) a d;
+  re_bal_esma : forall d, bal (vs (el e')) ESMA d = bal (vs (el e)) ESMA d - (epaid e' d - epaid e d);
+  re_bal_from : forall d, bal (vs (el e')) from d = bal (vs (el e)) from d - at1 denom amt d + (epaid e' d - epaid e d);
+  re_nonneg : forall d, 0 <= bal (vs (el e')) ESMA d;
+  re_paid : forall d, epaid e' d - epaid e d =
+            wsum (fun r0 => if ar_asset r0 =? d then pay_of lc ec (vs (el e)) app w r0 else 0) (app_recs (recs e) app);
+  re_pay_nonneg : forall r0, In r0 (app_recs (recs e) app) -> 0 <= pay_of lc ec (vs (el e)) app w r0;
+  re_life : el e' = set_edebt (el e) (vs (el e')) (add1 (edebt (el e)) denom (- amt));
+  re_coll : forall d, coll_of (recs e') d = coll_of (recs e) d - (epaid e' d - epaid e d);
+  re_debt : forall d, debt_of (recs e') d = debt_of (recs e) d - at1 denom amt d;
+  re_kc : map kc (recs e') = map kc (recs e);
+  re_recs : forall r0, In r0 (app_recs (recs e) app) -> rkey r0 <> (app, denom) ->
+            exists r', find_rec (recs e') (ar_app r0) (ar_asset r0) = Some r' /\ ar_amt r' = ar_amt r0 - pay_of lc ec (vs (el e)) app w r0;
+  re_rec_d : exists r', find_rec (recs e') app denom = Some r' /\ ar_amt r' = ar_amt r - amt;
+  re_cool_app : cool e' app <> None;
+  re_cool : forall a, a <> app -> cool e' a = cool e a;
+  re_rest : eflags e' = eflags e /\ epool e' = epool e /\ eret e' = add1 (eret e) denom amt /\ gburn e' = gburn e
+}.
+
+Theorem redeem_spec lc ec e from app denom amt e' : from <> ESMA -> NoDup (map rkey (recs e)) -> (forall d, 0 <= bal (vs (el e)) ESMA d) ->
+  redeem lc ec e from app denom amt = Ok e' -> exists r tw dec w, redeem_eff lc ec e e' from app denom amt r tw dec w.
+Proof.
+  intros Hfe Hnd Hnn H. unfold redeem in H. cbv zeta in H.
+  exec1 H. exec1 H. exec1 H. destruct p as [ct dt]. exec1 H. rename a into r. exec1 H. exec1 H. rename z into tw. exec1 H. rename z into dec.
+  exec1 H. rename st into w. exec1 H. rename st into s1. exec1 H. rename st into s2. exec1 H. destruct st as [[s3 rs] pd].
+  exec1 H. exec1 H. exec1 H. rename st into tp. exec1 H. injection H as <-.
+  apply orb_false_iff in C1. destruct C1 as [C1 Cgt]. apply orb_false_iff in C1. destruct C1 as [Cc Cz].
+  destruct (find_rec_some _ _ _ _ M0) as (Hrin & Hra & Hrx).
+  apply send_spec in E0. destruct E0 as (_ & b1 & -> & Hb1).
+  destruct (burn_from_books _ _ _ _ _ E1) as (B2 & S2 & R2 & _).
+  assert (Hb2 : forall d, bal s2 ESMA d = bal (vs (el e)) ESMA d).
+  { intros d. unfold burn_from in E1. destruct (amt <? 0); [discriminate E1|]. destruct (_ <? amt); [discriminate E1|]. injection E1 as <-.
+    ssimpl. rewrite Hb1. unfold xfer, at2. rewrite Z.eqb_refl. destruct (Z.eqb_spec ESMA from); [congruence|]. cbn [andb]. destruct (d =? denom); lia. }
+  assert (Hsn : snap s2 = snap (vs (el e))).
+  { unfold burn_from in E1. destruct (amt <? 0); [discriminate E1|]. destruct (_ <? amt); [discriminate E1|]. injection E1 as <-. reflexivity. }
+  assert (Hndl : NoDup (map rkey (app_recs (recs e) app))) by (apply nodup_filter_keys; exact Hnd).
+  assert (HFl : forall r0, In r0 (app_recs (recs e) app) -> find_rec (recs e) (ar_app r0) (ar_asset r0) = Some r0).
+  { intros r0 Hr0. apply find_rec_in; [exact Hnd|]. unfold app_recs in Hr0. apply filter_In in Hr0. tauto. }
+  assert (Hnn2 : forall d, 0 <= bal s2 ESMA d) by (intros d; rewrite Hb2; apply Hnn).
+  destruct (redeem_loop_spec lc ec app from w _ Hfe Hndl s2 (recs e) (epaid e) s3 rs pd HFl Hnn2 E2) as
+    (b' & -> & L1 & L2 & L3 & L4 & L5 & L6 & L7 & L8 & L9 & L10 & L11).
+  assert (Hrl : In r (app_recs (recs e) app)) by (unfold app_recs; apply filter_In; split; [exact Hrin|rewrite Hra; apply Z.eqb_refl]).
+  destruct (L10 r Hrl) as (rd & Frd & Ard & Krd). rewrite Hra, Hrx in Frd.
+  assert (Hp0 : pay_of lc ec s2 app w r = 0) by (unfold pay_of; rewrite Cc; reflexivity). rewrite Hp0 in Ard.
+  set (r1 := with_amt r (ar_amt r - amt)).
+  assert (Hk : ar_app r1 = app /\ ar_asset r1 = denom /\ ar_coll r1 = false) by (unfold r1, with_amt; cbn; auto). destruct Hk as (Hk1 & Hk2 & Hk3).
+  assert (Fr1 : find_rec rs (ar_app r1) (ar_asset r1) = Some rd) by (rewrite Hk1, Hk2; exact Frd).
+  assert (Hrdk : ar_coll rd = false /\ ar_asset rd = denom) by (unfold kc in Krd; split; congruence). destruct Hrdk as [Hrd1 Hrd2].
+  exists r, tw, dec, w. constructor; cbn [el recs cool eflags dep udep tms epool epaid eret gburn]; unfold set_edebt; cbn [vs lks edebt].
+  - lia.
+  - assumption.
+  - exact Cc.
+  - lia.
+  - assumption.
+  - assumption.
+  - exact E.
+  - apply (books_trans _ s2); [apply (books_trans _ (set_bal (vs (el e)) b1)); [apply books_set_bal|exact B2]|apply books_set_bal].
+  - intros x. ssimpl. rewrite S2. reflexivity.
+  - intros a d Ha1 Ha2. ssimpl. rewrite L1 by assumption. rewrite R2 by assumption. ssimpl. rewrite Hb1. unfold xfer.
+    destruct (Z.eqb_spec a ESMA); [contradiction|]. destruct (Z.eqb_spec a from); [contradiction|]. cbn [andb]. lia.
+  - intros d. ssimpl. rewrite L2, Hb2. reflexivity.
+  - intros d. ssimpl. rewrite L3. rewrite R2 by exact Hfe. ssimpl. rewrite Hb1. unfold xfer, at1. rewrite Z.eqb_refl.
+    destruct (Z.eqb_spec from ESMA); [contradiction|]. cbn [andb]. destruct (d =? denom); lia.
+  - intros d. ssimpl. apply L4.
+  - intros d. rewrite L5. unfold wsum. f_equal. apply map_ext. intros r0. rewrite (pay_of_snap lc ec _ s2 app w r0 Hsn). reflexivity.
+  - intros r0 Hr0. rewrite <- (pay_of_snap lc ec _ s2 app w r0 Hsn). exact (L6 r0 Hr0).
+  - reflexivity.
+  - intros d. rewrite coll_of_put, Fr1, Hrd1, Hk3. cbn [andb]. rewrite L7. lia.
+  - intros d. rewrite debt_of_put, Fr1, Hrd1, Hrd2, Hk3, Hk2. cbn [negb andb]. rewrite L8. unfold r1, with_amt, at1. cbn [ar_amt].
+    rewrite (Z.eqb_sym d). destruct (denom =? d); lia.
+  - rewrite <- L9. apply (put_proj kc rs r1 rd Fr1). unfold kc in *. rewrite Hk1, Hk2, Hk3. destruct (find_rec_some _ _ _ _ Frd) as (_ & -> & ->). rewrite Hrd1. reflexivity.
+  - intros r0 Hr0 Hne. destruct (L10 r0 Hr0) as (r' & F' & A' & _). exists r'. split.
+    + rewrite find_put_other; [exact F'|]. unfold rkey in *. rewrite Hk1, Hk2. exact Hne.
+    + rewrite A'. rewrite (pay_of_snap lc ec _ s2 app w r0 Hsn). reflexivity.
+  - exists r1. split; [rewrite <- Hk1, <- Hk2; apply find_put_same|reflexivity].
+  - unfold upd1. rewrite Z.eqb_refl. discriminate.
+  - intros a Ha. unfold upd1. destruct (Z.eqb_spec a app); [contradiction|reflexivity].
+  - repeat split.
 Qed.
